@@ -61,3 +61,32 @@ pub fn diff_class(d: &str) -> &'static str {
         "other"
     }
 }
+
+/// wrap the (first) top-level element of `doc` in a chain of `depth` unmixed no-namespace elements
+pub fn wrap_deep(doc: &mut crate::adoc::ANode, names: &[&str], depth: usize) {
+    use crate::adoc::*;
+    if let Some(i) = doc.children.iter().position(|c| c.kind == AKind::Elem) {
+        let mut cur = doc.children[i].clone();
+        for k in 0..depth {
+            cur = ANode::elem(QName::plain(names[k % names.len()])).with_children(vec![cur]);
+        }
+        doc.children[i] = cur;
+    }
+}
+
+/// insert up to `n` EMPTY text nodes as children of elements, never next to another text node
+pub fn sprinkle_empty_text(a: &mut crate::adoc::ANode, rng: &mut crate::rng::Rng, n: &mut usize) {
+    use crate::adoc::*;
+    if a.kind == AKind::Elem && *n > 0 && rng.chance(1, 3) {
+        let pos = rng.below(a.children.len() + 1);
+        let left_text = pos > 0 && a.children[pos - 1].kind == AKind::Text;
+        let right_text = pos < a.children.len() && a.children[pos].kind == AKind::Text;
+        if !left_text && !right_text {
+            a.children.insert(pos, ANode::text(""));
+            *n -= 1;
+        }
+    }
+    for c in a.children.iter_mut() {
+        sprinkle_empty_text(c, rng, n);
+    }
+}
